@@ -395,7 +395,17 @@ impl Diff {
                         // the flag and the reported cursor disagree: show what that does to the next
                         // printable character (C04: "written into the cell under the cursor")
                         let c = self.vt.cursor();
-                        if c.col < self.m.cols {
+                        if c.col < self.m.cols && c.col > 0 && focus(&F::Bs) {
+                            // ... and to the next relative move (C05: "exactly the requested distance")
+                            self.vt.feed('\x08');
+                            let c2 = self.vt.cursor();
+                            if (c2.col, c2.row) != (c.col - 1, c.row) {
+                                props.push("C05");
+                                props.sort();
+                                props.dedup();
+                                mis.msg = format!("{}; a following BS moves the cursor from ({},{}) to ({},{})", mis.msg, c.col, c.row, c2.col, c2.row);
+                            }
+                        } else if c.col < self.m.cols {
                             self.vt.feed('X');
                             let landed = self.vt.view()[c.row].cells().get(c.col).map(|cell| cell.char());
                             if landed != Some('X') {
